@@ -67,6 +67,11 @@ class C09(Prop):
     def summarize(self, c):
         return mc.summarize(c)
 
+    def extra_coverage(self, cases, tier):
+        if tier != "thorough":
+            return {}
+        return {"exhaustive_subspace": "n=2 with two EVENT ids in flight: all 24 reply orders x 16 verdict combinations; n=3 one EVENT: 6 orders x 8 verdicts; COUNT n=2,3 with counts from {0,1,2}: all orders x all combinations (612 histories), prepended to the random ones"}
+
     def distribution(self, cases):
         d = {"histories": len(cases), "children_2": 0, "children_3": 0, "children_4": 0, "steps": 0,
              "client_event": 0, "client_count": 0, "child_ok": 0, "child_count": 0, "merged_ok_accepting": 0,
